@@ -100,9 +100,12 @@ def pool_map(fn, tasks, logdir, nproc=12, task_timeout=150, budget=None):
 class Srv:
     """A real server process owned by one scenario."""
 
-    def __init__(self, logdir=None, name='srv', close_on_none=False):
+    def __init__(self, logdir=None, name='srv', close_on_none=False, cli=False):
         import uuid
         from pyworkers.remote_server import spawn_server
+        if cli:
+            self._start_cli(logdir, name, close_on_none)
+            return
         # everything that descends from this server inherits VF_SCN=<tag> (spawn = exec): it can be found and
         # killed at the end even after it has been re-parented
         self.tag = 'vf-' + uuid.uuid4().hex
@@ -128,7 +131,45 @@ class Srv:
         self.addr = tuple(self.proc.addr)
         self.seen = set()
 
+    def _start_cli(self, logdir, name, close_on_none):
+        """The documented command-line entry: `python -m pyworkers.remote_server --addr A --port P [--close_on_none]` as a
+        plain subprocess (this is how tmp_ssh_server / spawn_ssh_servers start servers on other hosts)."""
+        import socket
+        import subprocess
+        import uuid
+        self.tag = 'vf-' + uuid.uuid4().hex
+        self.errlog = os.path.join(logdir, '%s-cli-%d-%d.err' % (name, os.getpid(), time.time_ns()))
+        s = socket.socket()
+        s.bind(('127.0.0.1', 0))
+        port = s.getsockname()[1]
+        s.close()
+        env = dict(os.environ)
+        env['VF_SCN'] = self.tag
+        cmd = [sys.executable, '-m', 'pyworkers.remote_server', '--addr', '127.0.0.1', '--port', str(port), '-v']
+        if close_on_none:
+            cmd.append('--close_on_none')
+        with open(self.errlog, 'ab', buffering=0) as f:
+            self.popen = subprocess.Popen(cmd, cwd=L.REPO, env=env, stdout=f, stderr=f, stdin=subprocess.DEVNULL)
+        self.proc = None
+        self.pid = self.popen.pid
+        self.addr = ('127.0.0.1', port)
+        self.seen = set()
+        t0 = time.time()
+        while time.time() - t0 < 20:
+            try:
+                with open(self.errlog, 'rb') as f:
+                    if b'Listening on' in f.read():
+                        return
+            except OSError:
+                pass
+            if self.popen.poll() is not None:
+                break
+            time.sleep(0.02)
+        raise MachineryError('could not start `python -m pyworkers.remote_server` (exit code %s)' % (self.popen.poll(),))
+
     def alive(self):
+        if getattr(self, 'popen', None) is not None and self.popen.poll() is not None:
+            return False
         return L.pid_alive(self.pid, self.tag)
 
     def note_descendants(self):
@@ -147,6 +188,8 @@ class Srv:
             return ''
         k = txt.rfind('Error occurred in the remote server')
         if k < 0:
+            k = txt.rfind('Traceback (most recent call last)')
+        if k < 0:
             return ''
         last = ''
         for x in txt[k:].splitlines()[1:]:
@@ -161,6 +204,11 @@ class Srv:
         if stray:
             L.kill_pids(stray, tag=self.tag)
             left = left + L.await_dead(stray, 2.0, tag=self.tag)
+        if getattr(self, 'popen', None) is not None:
+            try:
+                self.popen.wait(2)
+            except Exception:  # noqa
+                pass
         return left
 
 
@@ -230,7 +278,7 @@ def scenario_c11(scn):
     from pyworkers.persistent_remote import PersistentRemoteWorker
     from pyworkers.remote_context import RemoteContext
     L.setup_env()
-    srv = Srv(scn.get('logdir'), close_on_none=bool(scn.get('con')))
+    srv = Srv(scn.get('logdir'), close_on_none=bool(scn.get('con')), cli=bool(scn.get('cli')))
     obs = {'srv_alive': 'F', 'fresh': [], 'others': []}
     notes = {'client_logs': [], 'server_error': '', 'failed_at': 0}
     release = os.path.join(scn['logdir'], 'release-%d-%d' % (os.getpid(), time.time_ns()))
@@ -239,11 +287,12 @@ def scenario_c11(scn):
         # the healthy party: a context, a persistent worker that has already produced a result,
         # a one-shot worker in the middle of its target
         def setup():
-            ctx = RemoteContext(L.REC_CTX_ID, host=srv.addr, target=tg.ctx_fun, kwargs={'tok': 5})
+            # plain workers first: the very first request a fresh server sees is a worker request
             hp = PersistentRemoteWorker(tg.ident, host=srv.addr, main_path=L.TARGETS_PATH)
             hp.enqueue(41)
             first = hp.next_result(timeout=HANG)
             ho = RemoteWorker(tg.wait_file, args=(release, 77), host=srv.addr, main_path=L.TARGETS_PATH)
+            ctx = RemoteContext(L.REC_CTX_ID, host=srv.addr, target=tg.ctx_fun, kwargs={'tok': 5})
             hc = PersistentRemoteWorker(None, host=srv.addr, context=L.REC_CTX_ID, main_path=L.TARGETS_PATH)
             hc.enqueue(40)
             if hc.next_result(timeout=HANG) != 40005:
@@ -255,10 +304,13 @@ def scenario_c11(scn):
         if r[0] != 'ok' or r[1][2] != 41:
             # a fresh server that does not serve well-behaved clients: an observation (no fault was needed), not a harness failure
             obs['fresh'].append({'got': 'setup:' + (L.tag(r) if r[0] != 'ok' else 'v:%s' % (r[1][2],)), 'want': 'setup:served'})
+            t0 = time.time()               # a server whose run() has raised is busy in its `finally` for a while
+            while srv.alive() and time.time() - t0 < HANG:
+                time.sleep(0.05)
             obs['srv_alive'] = 'T' if srv.alive() else 'F'
             notes['server_error'] = srv.last_error()
             return {'id': scn['id'], 'prop': 'C11', 'scn': {'faults': []}, 'obs': obs, 'notes': notes, 'faults_full': [],
-                    'con': bool(scn.get('con'))}
+                    'con': bool(scn.get('con')), 'cli': bool(scn.get('cli'))}
         ctx, hp, _, ho, hc = r[1]
         srv.note_descendants()
         for k, f in enumerate(scn['faults']):
@@ -338,7 +390,7 @@ def scenario_c11(scn):
         notes['unkillable'] = left
     return {'id': scn['id'], 'prop': 'C11',
             'scn': {'faults': [{'req': f['req'], 'step': f['step'], 'mode': f['mode']} for f in done]},
-            'obs': obs, 'notes': notes, 'faults_full': done, 'con': bool(scn.get('con'))}
+            'obs': obs, 'notes': notes, 'faults_full': done, 'con': bool(scn.get('con')), 'cli': bool(scn.get('cli'))}
 
 
 # ----------------------------------------------------------------------------- C18
@@ -444,6 +496,20 @@ def scenario_c18(scn):
                 return 'pending', []
             except OSError as e:
                 s.close()
+                return 'raised:' + type(e).__name__, []
+        if op == 'cut':
+            # the header of a context request naming this id, then the connection is dropped (FIN) before the body
+            cap = _Capture()
+            send_msg(cap, (cid, False))
+            c = socket.socket(socket.AF_INET, socket.SOCK_STREAM)
+            try:
+                c.settimeout(HANG)
+                c.connect(srv.addr)
+                c.sendall(cap.data)
+                c.close()
+                return 'dropped', []
+            except OSError as e:
+                L.vanish([c], 'fin')
                 return 'raised:' + type(e).__name__, []
         if op == 'rstart':
             # a worker request whose client is RESET before the server reads it: connection 1 sends nothing and keeps the
@@ -564,7 +630,8 @@ def _error_kind(w):
 def scenario_c12(scn):
     """scn: {id, how: 'terminate'|'sigterm'|'tshort' (terminate(timeout=0.3, force=True)), kids: [{state, persistent}], racer: None|{step, delay}, streams, pos, logdir}
     kid states: coop / swallow (target running), idle (persistent, no input), finished, inctx (idle in a
-    context), inctx-coop / inctx-swallow (running the context's target), swallow-gone / coop-gone (persistent
+    context), inctx-coop / inctx-swallow (running the context's target), swallow-t (swallowing worker that has
+    survived a graceful terminate(timeout, force=False) of its parent before the stop), swallow-gone / coop-gone (persistent
     worker busy in its target whose CLIENT PROCESS has been SIGKILLed), starting (scripted client in the
     middle of the handshake when the stop arrives; no parent-side object)."""
     import uuid
@@ -589,7 +656,7 @@ def scenario_c12(scn):
             st = k['state']
             marker = os.path.join(scn['logdir'], 'mark-%s-%d' % (tagv, i))
             kw = dict(host=srv.addr, main_path=L.TARGETS_PATH)
-            if st in ('coop', 'swallow'):
+            if st in ('coop', 'swallow', 'swallow-t'):
                 fn = tg.coop_marked if st == 'coop' else tg.swallow_marked
                 if k['persistent']:
                     w = PersistentRemoteWorker(fn, **kw)
@@ -651,6 +718,9 @@ def scenario_c12(scn):
                 if time.time() - t0 > 2 * HANG:
                     raise MachineryError('C12 set-up: a target did not start running')
                 time.sleep(0.02)
+            for i, k in enumerate(kids):          # 'swallow-t': its parent has already asked it to stop, gracefully and in vain
+                if k['state'] == 'swallow-t':
+                    notes['setup'].append('kid %d graceful terminate(0.5, force=False) -> %s' % (i, L.tag(L.bounded(objs[i].terminate, HANG + 2, 0.5, False))))
             return True
         r = L.bounded(setup, 40)
         if r[0] != 'ok':
